@@ -58,17 +58,25 @@ def body(j):
     return ["%d = N %d %d" % (j, j % 5, j), "%d = N %d 0" % (40 + 13 * j, (j + 1) % 5), "%d = S 2 %d" % (j, 30 + j), "%d = E e%d" % (45 + j, j)]
 
 
-def text_for(fm, U, bodies=None):
+def text_for(fm, U, bodies=None, unknown=False):
     secs = [SONG, SYNC, EVENTS]
     for j in range(U):
         if fm >> j & 1:
             secs.insert(1 + j % 3, (UNIVERSE[j], (bodies or {}).get(j, body(j))))
+    if unknown:
+        # unrecognised sections in front of, between and behind the sections of the file (reported and ignored, C06):
+        # they are no tracks, so they change neither what a selection selects nor what no selection yields
+        out = [("Foo", ["0 = N 0 0"])]
+        for k, sec in enumerate(secs):
+            out.append(sec)
+            out.append((("PART VOCALS", "ExpertSingle ", "Bar")[k % 3], [] if k % 2 else ["1 = N 1 1", "x"]))
+        secs = out
     return "".join(section(n, b) for n, b in secs)
 
 
 def plan(tier, seed):
     U = 6 if tier == "quick" else 8
-    shards = [("sel", fm, U) for fm in range(1 << U)]
+    shards = [("sel", fm, U) for fm in range(1 << U)] + [("sel", fm, U, "unknown sections interleaved") for fm in range(1 << U) if fm % 3 == 1 or fm == (1 << U) - 1]
     shards += [("nonint", j, U) for j in range(U)]
     shards += [("longsel", k) for k in range(4)]
     return dict(shards=shards, bounds=dict(universe=list(UNIVERSE[:U]), absent_pair=list(ABSENT)), budget_s=600)
@@ -84,8 +92,8 @@ def restrict(full, keys):
 def run_shard(shard, ctx):
     kind = shard[0]
     if kind == "sel":
-        _, fm, U = shard
-        text = text_for(fm, U)
+        _, fm, U = shard[:3]
+        text = text_for(fm, U, unknown=len(shard) > 3)
         pairs = [list(TRACK_HEADERS[h]) for h in UNIVERSE[:U]] + [list(ABSENT)]
         present = {"%s/%s" % tuple(pairs[j]) for j in range(U) if fm >> j & 1}
         full = impl.model_outcome(text, "file", None, (), "full")
